@@ -165,6 +165,13 @@ def build(rng, parents=None, compressed_ok=True):
                 # a tweak of zero bytes (or of 0xff): it is the HMAC key, not the scalar -
                 # the key it leads to is as different from the certifier's as any other
                 tw = rng.choice([bytes(32), bytes(1), bytes(20), b"\xff" * 32, bytes(31) + b"\x01"])
+            elif rng.random() < 0.12:
+                # a tweak whose derived scalar HMAC(tweak, key) begins with a zero byte (one
+                # in 256 does; drawn again until it does): 32 bytes like any other scalar
+                for _ in range(3000):
+                    tw = rng.randbytes(32)
+                    if tweak_scalar(tw, pub65(cert_sk)) >> 248 == 0:
+                        break
             tk = tweaked_key(cert_sk, tw)
             if tk is not None:
                 el["tweak"] = tw.hex()
